@@ -58,6 +58,12 @@ CHECKS = {
                      'Dbscan.tla transcribes create_clusters step by step; TLC checks contract and termination for every neighbourhood relation, order and minPts on 3 (quick) / 4 (thorough) points and prints every terminal state, which the real function must reproduce. '
                      'GenAlgo.tla enumerates every symmetric cost matrix over small alphabets for 1-5 nodes plus a seeded larger stratum (6-9 nodes, ties, zero-cost duplicates, collinear), every point multiset on a small line / grid plus seeded larger sets; every call runs under a deadline (termination).',
                 note='trusted: TLC; integer costs (float arithmetic exact); k <= number of points; hierarchy: nearest-medoid judged among clusters that split the same parent.'),
+    'C08': dict(category='model_checking', design_ref='DESIGN.md section 6 C08', technique='Population.tla (Greedy / Elitism / Rosomaxa as one state machine) model-checked with TLC; TLC-generated operation histories replayed into the real populations, observed rankings / selections judged by JudgePopulation.tla; seeded re-solves compared under the real goal',
+                text='Population.tla transcribes the three populations (best-of, stable sort + dedup keeping the earlier twin + truncate, elite fed through the not-worse-than-best filter, phase switches on the termination estimate). '
+                     'TLC checks BestNoWorse, Sorted, SizeBound, RankedOffered, NoTwins, NonEmptyOnceOffered and PhaseMonotone for all histories of 4 operations and generates 14-operation histories (add, add_all with batches of 0-3, on_generation, select) for every configuration; '
+                     'each is executed on the real objects through the HeuristicPopulation trait and the properties are evaluated on what was observed after every operation (the equality with the model expectation is reported as conformance). '
+                     'Corollary: generated problems are solved, the written solution is read back as initial solution, solved again with each population type, and both are compared with GoalContext::total_order.',
+                note='trusted: TLC; the test objective (lexicographic pairs) and custom dedup rules of the harness; corollary only on the plain stratum (no breaks / reloads / custom objectives / multiple shifts), both sides written and re-read; re-solves whose seed cannot be read back are skipped (see C11).'),
     'C10': dict(category='model_checking', design_ref='DESIGN.md section 6 C10', technique='TLC enumerates abstract documents per rule family (GenValidation.tla), instantiated as pragmatic JSON and read by the real reader; every documented rule evaluated in a Must and a May reading by JudgeValidation.tla (Validation.tla)',
                 text='Validation.tla states the 38 documented rules E11xx-E16xx over an abstract document, each as Must (the text is unambiguous) and May (the text can be read that way). '
                      'GenValidation.tla enumerates, over a valid base document, all combinations of the fields of one rule family at a time (window lists up to 3 incl. reversed / overlapping / touching / zero-length / malformed windows for every task kind, demand vectors x task kinds, ids, durations incl. -0.0, '
